@@ -40,7 +40,6 @@ Definition lin_law45 (tolv : Q -> Q) (nomax : Z) (found : bool) (na nb ao bo : Q
   | Some (t0, t1), Some (u0, u1) => Qleb (na - ao) (t1 - t0 + tolv ao) && Qleb (bo - nb) (u1 - u0 + tolv bo)
   | _, _ => false
   end.
-Definition is_found (r : flres) : bool := match r with FL_ok _ => true | _ => false end.
 
 (* ---------- what an accepted verdict says, group by group ---------- *)
 Record lin_groups (cd : Z) (c : sccase) (eb : Z) (ao bo : Q) : Prop := mkLG {
@@ -384,10 +383,6 @@ Definition linear_some_gen (G : bool -> bool -> Prop -> Prop) (Lw : bool -> Prop
 
 Definition linear_case_gen (G : bool -> bool -> Prop -> Prop) (Lw : bool -> Prop -> Prop) (c : sccase) : Prop :=
   match lin_ebase (sc_base c) with None => lin_badbase_ok c | Some eb => linear_some_gen G Lw c eb end.
-Definition G_exact (E A : bool) (P : Prop) : Prop := P.
-Definition L_exact (amb : bool) (P : Prop) : Prop := P.
-Definition G_border (E A : bool) (P : Prop) : Prop := P \/ (E = false /\ A = true).
-Definition L_border (amb : bool) (P : Prop) : Prop := P \/ amb = true.
 (* verdict code 0 / verdict code 1 *)
 Definition linear_case_ok (c : sccase) : Prop := linear_case_gen G_exact L_exact c.
 Definition linear_case_borderline (c : sccase) : Prop := linear_case_gen G_border L_border c.
